@@ -118,7 +118,14 @@ func genC07hCase(rng *Rng) c07hCase {
 		c.ScriptP = append(c.ScriptP, step(i))
 		c.ScriptH = append(c.ScriptH, step(i+4))
 	}
-	if rng.Chance(60) {
+	if rng.Chance(20) && c.Retries > 0 {
+		// both branches fail fast while the other one waits out its retry delay: they draw on one budget
+		c.RDelay = c.Delay + 4096 + 11
+		for i := range c.ScriptP {
+			c.ScriptP[i] = FnStepD{Out: OutD{Err: &ErrD{K: "Sent", A: 0}}, Dur: int64(100 + 3*i)}
+			c.ScriptH[i] = FnStepD{Out: OutD{Err: &ErrD{K: "Sent", A: 1}}, Dur: int64(200 + 5*i)}
+		}
+	} else if rng.Chance(60) {
 		// the primary branch is slow enough for the hedge to start, and the hedged branch's first attempt times out while it
 		// still has retries to use
 		c.ScriptP[0].Dur = c.Delay + 6*c.Limit + 13
